@@ -320,6 +320,12 @@ func (ww *conversionVisitor) visitOneofNode(node *sourcewalk.OneofNode) {
 				ww.addError(node.Source, err)
 				return nil
 			}
+			if propertyDesc.GetName() == "type" {
+				// the proto oneof which holds the options is named 'type': the
+				// message would define the symbol twice (a link error in the generated file)
+				ww.addErrorf(node.Source, "oneof option name %q is reserved: the proto oneof which holds the options is named 'type'", schema.Name)
+				return nil
+			}
 			if message.hasField(propertyDesc.GetName()) {
 				ww.addErrorf(node.Source, "option %s: the name %s is already used by an earlier option of %s", node.Schema.Name, propertyDesc.GetName(), message.descriptor.GetName())
 				return nil
